@@ -11,6 +11,7 @@ func init() {
 	vRegister("VerifC01Varint", VerifC01Varint)
 	vRegister("VerifC01Packed", VerifC01Packed)
 	vRegister("VerifC01RoundTrip", VerifC01RoundTrip)
+	vRegister("VerifC01Strings", VerifC01Strings)
 }
 
 // VerifC01Varint: decodeVarint(encodeVarint(x)) == x and consumes exactly the
@@ -202,4 +203,152 @@ func VerifC01RoundTrip() {
 	var buf3 bytes.Buffer
 	q2.WriteUncompressed(&buf3)
 	vAssert(bytes.Equal(buf2.Bytes(), buf3.Bytes()), "C01.rt.bytes: re-serialization of a parsed profile is not byte-identical")
+}
+
+// vSymStr is an arbitrary string of one of four shapes: empty, one or two
+// arbitrary bytes (non-UTF8 included), or "http://" followed by an arbitrary byte.
+func vSymStr(tag string) string {
+	b0, b1 := vByte(tag+"b0"), vByte(tag+"b1")
+	switch vChoice(tag+"shape", 4) {
+	case 0:
+		return string([]byte{b0})
+	case 1:
+		return string([]byte{b0, b1})
+	case 2:
+		return "http://" + string([]byte{b0})
+	}
+	return ""
+}
+
+// VerifC01Strings: every string-valued field of a profile survives
+// write-then-parse for arbitrary contents. One field at a time carries the
+// arbitrary string; the others keep distinct constants.
+func VerifC01Strings() {
+	m := &Mapping{ID: 1, Start: 0x1000, Limit: 0x2000, File: "bin", BuildID: "id"}
+	f := &Function{ID: 1, Name: "fn", SystemName: "sys", Filename: "file.go", StartLine: 3}
+	l := &Location{ID: 1, Mapping: m, Address: 0x1100, Line: []Line{{Function: f, Line: 5}}}
+	s0 := &Sample{Location: []*Location{l}, Value: []int64{7},
+		Label:    map[string][]string{"key": {"val"}},
+		NumLabel: map[string][]int64{"num": {9}}, NumUnit: map[string][]string{"num": {"unit"}}}
+	p := &Profile{
+		SampleType: []*ValueType{{Type: "st", Unit: "su"}}, PeriodType: &ValueType{Type: "pt", Unit: "pu"}, Period: 1,
+		Mapping: []*Mapping{m}, Function: []*Function{f}, Location: []*Location{l}, Sample: []*Sample{s0},
+		Comments: []string{"comment"}, DropFrames: "drop", KeepFrames: "keep", DefaultSampleType: "st", DocURL: "https://doc",
+	}
+	x := vSymStr("x")
+	which := vChoice("field", vBound("c01.fields", 19))
+	switch which {
+	case 0:
+		m.File = x
+	case 1:
+		m.BuildID = x
+	case 2:
+		// (KernelRelocationSymbol is derived from File on load, not serialized)
+		m.File = "[kernel.kallsyms]" + x
+	case 3:
+		f.Name = x
+	case 4:
+		f.SystemName = x
+	case 5:
+		f.Filename = x
+	case 6:
+		p.SampleType[0].Type = x
+		p.DefaultSampleType = ""
+	case 7:
+		p.SampleType[0].Unit = x
+	case 8:
+		p.PeriodType.Type = x
+	case 9:
+		p.PeriodType.Unit = x
+	case 10:
+		s0.Label = map[string][]string{x: {"val"}}
+	case 11:
+		s0.Label = map[string][]string{"key": {x}}
+	case 12:
+		s0.NumLabel = map[string][]int64{x: {9}}
+		s0.NumUnit = map[string][]string{x: {"unit"}}
+	case 13:
+		s0.NumUnit = map[string][]string{"num": {x}}
+	case 14:
+		p.Comments = []string{x, "comment"}
+	case 15:
+		p.DropFrames = x
+	case 16:
+		p.KeepFrames = x
+	case 17:
+		p.DefaultSampleType = x
+	case 18:
+		p.DocURL = x
+	}
+	if p.CheckValid() != nil {
+		return
+	}
+	var buf bytes.Buffer
+	if err := p.WriteUncompressed(&buf); err != nil {
+		vAssert(false, "C01.str.write: writing a valid profile failed")
+		return
+	}
+	q, err := ParseUncompressed(buf.Bytes())
+	vReach("C01.str:parsed")
+	if err != nil {
+		vAssert(false, "C01.str.parse: parsing the bytes just written failed")
+		return
+	}
+	if len(q.Mapping) != 1 || len(q.Function) != 1 || len(q.Location) != 1 || len(q.Sample) != 1 || len(q.SampleType) != 1 || q.PeriodType == nil {
+		vAssert(false, "C01.str.counts: number of mappings/functions/locations/samples/types changed")
+		return
+	}
+	qm, qf, qs := q.Mapping[0], q.Function[0], q.Sample[0]
+	ok := vAnd(vStrEq(qm.File, m.File), vStrEq(qm.BuildID, m.BuildID))
+	vAssert(ok, "C01.str.mapping: a mapping string changed")
+	ok = vAnd(vStrEq(qf.Name, f.Name), vAnd(vStrEq(qf.SystemName, f.SystemName), vStrEq(qf.Filename, f.Filename)))
+	vAssert(ok, "C01.str.function: a function string changed")
+	ok = vAnd(vAnd(vStrEq(q.SampleType[0].Type, p.SampleType[0].Type), vStrEq(q.SampleType[0].Unit, p.SampleType[0].Unit)),
+		vAnd(vStrEq(q.PeriodType.Type, p.PeriodType.Type), vStrEq(q.PeriodType.Unit, p.PeriodType.Unit)))
+	vAssert(ok, "C01.str.valuetype: a sample/period type string changed")
+	ok = vAnd(vAnd(vStrEq(q.DropFrames, p.DropFrames), vStrEq(q.KeepFrames, p.KeepFrames)), vAnd(vStrEq(q.DefaultSampleType, p.DefaultSampleType), vStrEq(q.DocURL, p.DocURL)))
+	vAssert(ok, "C01.str.header: a header string (drop/keep frames, default sample type, doc URL) changed")
+	if len(q.Comments) != len(p.Comments) {
+		vAssert(false, "C01.str.comments: number of comments changed")
+	} else {
+		for i := range p.Comments {
+			vAssert(vStrEq(q.Comments[i], p.Comments[i]), "C01.str.comments: a comment changed")
+		}
+	}
+	// labels: the one string label, unless its value is empty (proto3)
+	for k, vs := range s0.Label {
+		got := qs.Label[k]
+		if vStrEq(vs[0], "") {
+			vAssert(len(got) == 0, "C01.str.label-empty: an empty label value was not dropped")
+		} else {
+			ok := len(got) == 1
+			if ok {
+				ok = vStrEq(got[0], vs[0])
+			}
+			vAssert(ok, "C01.str.label: a string label changed")
+		}
+	}
+	for k, vs := range s0.NumLabel {
+		got, gu := qs.NumLabel[k], qs.NumUnit[k]
+		unit := "" // no unit and an empty unit are the same thing
+		if len(gu) == 1 {
+			unit = gu[0]
+		}
+		ok := len(got) == 1 && len(gu) <= 1
+		if ok {
+			ok = vAnd(got[0] == vs[0], vStrEq(unit, s0.NumUnit[k][0]))
+		}
+		vAssert(ok, "C01.str.numlabel: a numeric label or its unit changed")
+	}
+	// what the parser returned survives write-then-parse and re-serializes to identical bytes
+	var b2, b3 bytes.Buffer
+	q.WriteUncompressed(&b2)
+	q2, err2 := ParseUncompressed(b2.Bytes())
+	if err2 != nil {
+		vAssert(false, "C01.str.reparse: the re-serialized profile does not parse")
+		return
+	}
+	q2.WriteUncompressed(&b3)
+	vAssert(vStrEq(string(b3.Bytes()), string(b2.Bytes())), "C01.str.reserialize: the parsed profile does not re-serialize to identical bytes")
+	vObserve(len(buf.Bytes()))
 }
